@@ -2,6 +2,8 @@ package props
 
 import (
 	"fmt"
+	"go/token"
+	"go/types"
 	"strings"
 
 	"golang.org/x/tools/go/ssa"
@@ -15,6 +17,7 @@ func init() { register("C13", checkC13) }
 func checkC13(c *chk.Ctx) {
 	h := newH(c)
 	c.Decided = []string{
+		"R13e while a request is applied, a method is only called on a possibly-nil helper object of the kv package (the per-write notification recorder is nil when notifications are disabled) under a nil test at the call or inside the method: applying a request never panics because of the shard's configuration",
 		"R13a the error result of applying a logged request can only originate from the storage layer / (de)serialisation of stored data: no repository sentinel that classifies request content, no error constructed while applying, no parse of request- or key-derived text",
 		"R13c the step of BecomeLeader that re-arms the sessions from the replayed DB (SessionManager.Initialize) cannot fail because of what a stored key or value looks like: its error only originates from the storage layer",
 		"R13d the loops that replay / apply the log (leader replay in BecomeLeader, follower apply loop) can only fail with an error of the log reader, of the generated decoder of the entry, or of ProcessWrite: no check of their own on what the logged request looks like, and no decoder stricter than the one that accepted the request",
@@ -27,6 +30,7 @@ func checkC13(c *chk.Ctx) {
 	ruleR13a(h)
 	ruleR13c(h)
 	ruleR13d(h)
+	ruleR13e(h)
 	h.Rule("R13b", "K1", "apply loops stop at the first failing entry (shared with R07c)", 4)
 	ruleR07cInto(h, "R13b")
 }
@@ -228,5 +232,126 @@ func ruleR13d(h *H) {
 	}
 	if n == 0 {
 		h.Anchor(rule, "apply loops (wal.Reader.ReadNext + kv.DB.ProcessWrite) in package server")
+	}
+}
+
+// ruleR13e: applying a logged request must end in a status. A nil dereference is worse
+// than an error: it kills the leader in the commit callback, every follower in its apply
+// loop, and every node that replays the entry in BecomeLeader. The objects that are
+// legitimately nil while applying are the optional per-write helpers of the kv package
+// (the notification recorder when the shard runs with notifications disabled).
+func ruleR13e(h *H) {
+	const rule = "R13e"
+	h.Rule(rule, "K2", "in server/kv every method call on a receiver that can be nil (a phi with a nil edge, also through helper parameters) is either behind a nil test of that receiver or goes to a method all of whose receiver dereferences are behind its own nil test", 1)
+	var maybeNil func(v ssa.Value, depth int) bool
+	maybeNil = func(v ssa.Value, depth int) bool {
+		if depth > 4 {
+			return false
+		}
+		switch x := ir.Canon(v).(type) {
+		case *ssa.Const:
+			return x.IsNil()
+		case *ssa.Phi:
+			for _, e := range x.Edges {
+				if c, ok := e.(*ssa.Const); ok && c.IsNil() {
+					return true
+				}
+				if e != ssa.Value(x) && maybeNil(e, depth+1) {
+					return true
+				}
+			}
+		case *ssa.Parameter:
+			fn := x.Parent()
+			for i, p := range fn.Params {
+				if p != x {
+					continue
+				}
+				for _, cs := range ir.StaticCallSites(fn) {
+					if i < len(cs.Common().Args) && maybeNil(cs.Common().Args[i], depth+1) {
+						return true
+					}
+				}
+			}
+		}
+		return false
+	}
+	guardedNonNil := func(v ssa.Value, at ssa.Instruction) bool {
+		for _, t := range ir.NilTests(ir.Canon(v)) {
+			if t.NonNil == at.Block() || t.NonNil.Dominates(at.Block()) {
+				return true
+			}
+		}
+		for _, t := range ir.NilTests(v) {
+			if t.NonNil == at.Block() || t.NonNil.Dominates(at.Block()) {
+				return true
+			}
+		}
+		return false
+	}
+	var nilSafe func(f *ssa.Function, depth int) (bool, string)
+	nilSafe = func(f *ssa.Function, depth int) (bool, string) {
+		if len(f.Params) == 0 || f.Blocks == nil || depth > 3 {
+			return false, "cannot look into " + ir.FuncName(f)
+		}
+		recv := f.Params[0]
+		ok, where := true, ""
+		ir.Instrs(f, func(in ssa.Instruction) {
+			if !ok {
+				return
+			}
+			deref := false
+			switch x := in.(type) {
+			case *ssa.FieldAddr:
+				deref = x.X == ssa.Value(recv)
+			case *ssa.UnOp:
+				deref = x.Op == token.MUL && x.X == ssa.Value(recv)
+			case *ssa.Call:
+				if g := x.Call.StaticCallee(); g != nil && g != f && len(x.Call.Args) > 0 && x.Call.Args[0] == ssa.Value(recv) && g.Signature.Recv() != nil {
+					if s, _ := nilSafe(g, depth+1); !s {
+						deref = true
+					}
+				}
+			}
+			if deref && !guardedNonNil(recv, in) {
+				ok, where = false, h.pos(in)
+			}
+		})
+		return ok, where
+	}
+	n := 0
+	for _, fn := range h.P.Funcs {
+		if ir.RelPkg(ir.PkgPathOf(fn)) != "server/kv" || fn.Blocks == nil {
+			continue
+		}
+		fn := fn
+		ir.Instrs(fn, func(in ssa.Instruction) {
+			c, ok := in.(*ssa.Call)
+			if !ok {
+				return
+			}
+			g := c.Call.StaticCallee()
+			if g == nil || g.Signature.Recv() == nil || len(c.Call.Args) == 0 || !ir.InRepo(g) {
+				return
+			}
+			if _, isPtr := g.Signature.Recv().Type().Underlying().(*types.Pointer); !isPtr {
+				return
+			}
+			recv := c.Call.Args[0]
+			if !maybeNil(recv, 0) {
+				return
+			}
+			n++
+			h.Fn(ir.FuncName(fn))
+			name := fmt.Sprintf("call of %s on a possibly-nil receiver in %s", g.Name(), ir.FuncName(fn))
+			if guardedNonNil(recv, in) {
+				h.OK(rule, name, h.pos(in), "behind a nil test of the receiver")
+				return
+			}
+			safe, where := nilSafe(g, 0)
+			h.Verdict(safe, rule, name, h.pos(in), "the method tests its receiver before using it", "the receiver can be nil here (the optional helper is absent in some shard configurations) and "+ir.FuncName(g)+" dereferences it without a test at "+where+": applying a logged request of that kind panics on the leader, on every follower and in every later BecomeLeader replay")
+		})
+	}
+	if n == 0 {
+		h.Anchor(rule, "method calls on possibly-nil receivers in server/kv")
 	}
 }
